@@ -134,6 +134,23 @@ def gen_program(draw, pp, cfg, profile=None):
     kinds = [k for k, w in weights.items() for _ in range(w)]
     n_steps = draw(st.integers(1, profile.get('max_steps', 12)))
     steps = []
+    # most plates are loaded by a first recipe step (container -> whole plate or a region), so that later steps and
+    # the tracking queries see plates whose wells hold something
+    for o in list(objects):
+        if o['kind'] != 'plate' or draw(st.integers(0, 3)) == 0:
+            continue
+        srcs = [i for i in world.indices('c') if benchgen._nonempty(world, world.pool[i].view)]
+        if not srcs:
+            break
+        pi = g.cur[o['name']]
+        dst = {'i': pi, 'sel': {'t': 'all'}} if draw(st.booleans()) else benchgen.region_ref(world, draw, pi)
+        op = {'op': 'transfer', 'src': {'i': draw(st.sampled_from(srcs))}, 'dst': dst, 'q': None}
+        op['q'] = benchgen.gen_transfer_quantity(world, draw, dict(profile, q_modes=['frac']), op)
+        step = translate(g, op)
+        out = bench.execute(world, op)
+        if out.ok:
+            rebind(g, op, out)
+            steps.append(step)
     failing = None
     stage_open = None
     stage_no = 0
@@ -639,12 +656,23 @@ def check_c17(col, pp, cfg, prog):
         partial = step['obj'].get('sel', {'t': 'plate'})['t'] not in ('plate', 'all')
         tag = ('plate-slice' if partial else 'plate') if is_plate else 'container'
         col.label('recipe')
-        for name, amt in removed.items():
+        col.label(f"recipe-remove:{tag}")
+        if partial and any(n in removed for _, w in wells_of(eager.snapshots[s0 + 1][key]) for n, a in w['contents'] if a > 0):
+            col.label('recipe-remove:plate-slice-with-substance-left-elsewhere')
+        # every substance the selector matches anywhere on the object is asked about (nothing removed => 0 discarded)
+        what = step['what']
+        matching = {n for _, w in wells_of(eager.snapshots[s0][key]) for n, a in w['contents']
+                    if (n == world.subs[what['s']].name if 's' in what else
+                        ref.subs[n].kind == {1: 'solid', 2: 'liquid', 3: 'enzyme'}[what['cls']])}
+        for name in sorted(set(removed) | matching):
+            amt = removed.get(name, 0.0)
             col.case()
             sub = ref.subs[name]
             si = world.by_name[name]
             fam = 'U' if sub.enzyme else 'mol'
             val = amt
+            if val <= 0:        # nothing removed in the addressed wells: scale the unit by what sits elsewhere on the object
+                val = sum(world.base(w).get(name, 0.0) for _, w in wells_of(eager.snapshots[s0][key]))
             unit = 'U' if sub.enzyme else next((p + 'mol' for p in ('', 'm', 'u', 'n') if val / prefix_f(p) >= 0.1), 'nmol')
             p = cfg.precision(unit)
             want = amt / prefix_f(split_unit(unit)[0])
@@ -652,17 +680,25 @@ def check_c17(col, pp, cfg, prog):
             case = _prog_case(prog, {'focus': {'stage': nm, 'substance': name}})
             if others:
                 try:
-                    got = rr.recipe.get_substance_used(world.real[si], nm, unit, [rr.decl[others[0]]])
-                    if abs(got - want) > tol:
-                        col.report(f"recipe/remove/{tag}/discarded-amount-wrong/substance_used",
-                                   {'got': got, 'expected': want, 'unit': unit}, case)
+                    got, exc = rr.recipe.get_substance_used(world.real[si], nm, unit, [rr.decl[others[0]]]), None
                 except Exception as e:  # noqa
-                    col.report(f"recipe/remove/{tag}/substance_used-raised:{type(e).__name__}", {'exc': repr(e)[:160]}, case)
+                    got, exc = None, e
+                if exc is not None:
+                    col.report(f"recipe/remove/{tag}/substance_used-raised:{type(exc).__name__}", {'exc': repr(exc)[:160]}, case)
+                elif abs(got - want) > tol:
+                    col.report(f"recipe/remove/{tag}/discarded-amount-wrong/substance_used",
+                               {'got': got, 'expected': want, 'unit': unit}, case)
             col.nontrivial_key(f"{'class' if 'cls' in step['what'] else 'substance'}|{tag}|recipe|{sub.kind}")
         # outflow of the object itself over the remove stage == everything removed, in volume
+        import numpy
         try:
-            flows = rr.recipe.get_container_flows(rr.decl[key], nm, 'nL')
-            import numpy
+            flows, exc = rr.recipe.get_container_flows(rr.decl[key], nm, 'nL'), None
+        except Exception as e:  # noqa
+            flows, exc = None, e
+        if exc is not None:
+            col.report(f"recipe/remove/{tag}/container_flows-raised:{type(exc).__name__}", {'exc': repr(exc)[:160]},
+                       _prog_case(prog, {'focus': {'stage': nm}}))
+        else:
             out_total = float(numpy.sum(flows['out']))
             in_total = float(numpy.sum(flows['in']))
             want = sum(a * ref.subs[n].factor('L') for n, a in removed.items()) / 1e-9
@@ -672,9 +708,6 @@ def check_c17(col, pp, cfg, prog):
                 col.report(f"recipe/remove/{tag}/discarded-amount-wrong/container_flows",
                            {'out': out_total, 'in': in_total, 'expected_out': want},
                            _prog_case(prog, {'focus': {'stage': nm}}))
-        except Exception as e:  # noqa
-            col.report(f"recipe/remove/{tag}/container_flows-raised:{type(e).__name__}", {'exc': repr(e)[:160]},
-                       _prog_case(prog, {'focus': {'stage': nm}}))
         col.sample(lambda: {'steps': prog['steps'], 'stage': nm, 'removed': removed})
 
 
